@@ -53,9 +53,9 @@ CLAIMED = {
     technique="Coq proof over hand-written Gallina model + vm_compute correspondence check"),
  "C05": dict(
     category="proof",
-    text="Coq theorems: C05_dims / C05_shape (each returned array has one dimension per dependent array axis, in increasing array-axis order, of the axis length, +1 for corners), C05_entries (for ANY WCS with a sound correlation matrix every entry equals the WCS value at the centre / corner of any element with those coordinates on the correlated axes: the zeros injected outside the block and index 0 on same-block-uncorrelated axes are harmless), C05_selection / C05_int_axis (the world axes returned are exactly those correlated with a requested array axis or uniquely named by a substring, once each, in world order; anything else refuses). Tied to /repo by an exact correspondence check over every correlation structure up to 3x3 (+ sampled 4x4) realised by integer probe WCS with distinct weights on non-cubic shapes, for wcs / extra_coords / combined_wcs, both corner settings, grouped two-component objects, and a full-grid direct oracle incl. TAN / rotated FITS families and the high-level form (classes, order, numeric agreement).",
+    text="Coq theorems: C05_dims / C05_shape (each returned array has one dimension per dependent array axis, in increasing array-axis order, of the axis length, +1 for corners), C05_entries (for ANY WCS with a sound correlation matrix every entry equals the WCS value at the centre / corner of any element with those coordinates on the correlated axes: the zeros injected outside the block and index 0 on same-block-uncorrelated axes are harmless), C05_selection / C05_int_axis (the world axes returned are exactly those correlated with a requested array axis or uniquely named by a substring, once each, in world order; anything else refuses). Tied to /repo by an exact correspondence check over every correlation structure up to 3x3 (+ sampled 4x4) realised by integer probe WCS with distinct weights on non-cubic shapes, for wcs / extra_coords / combined_wcs, both corner settings, grouped two-component objects, and a full-grid direct oracle incl. TAN / rotated FITS families and the high-level form (classes, order, numeric agreement). For wcs = extra_coords whose pixel dimensions are mapped to the cube's in any order: C05_ec_axes / C05_ec_dims (one dimension per dependent CUBE array axis, increasing, of that axis' length), C05_ec_entries (every entry is the extra WCS's value at the element's centre / corner through the mapping) and C05_transpose (the transposition the code applies), tied to /repo by WCS-backed ExtraCoords over linear probes with any correlation matrix and any mapping.",
     design_ref="DESIGN.md §5.5",
-    note="Trusted: Coq kernel + VM; Model/M_WorldCoords.v transcription; _split_matrix (component) and values_to_high_level_objects (objects_for) are astropy dependencies validated by the same run; corr_sound is an explicit premise; extra-coord corners fall outside lookup tables (NaN) and are left to the oracle; gWCS primary WCS not generated.",
+    note="Trusted: Coq kernel + VM; Model/M_WorldCoords.v transcription; _split_matrix (component) and values_to_high_level_objects (objects_for) are astropy dependencies validated by the same run; corr_sound is an explicit premise; extra-coord corners fall outside lookup tables (NaN) and are left to the oracle; gWCS primary WCS not generated; 2-D per-pixel SkyCoord tables by the direct oracle only.",
     technique="Coq proof over hand-written Gallina model + vm_compute correspondence check (exhaustive small correlation structures)"),
  "C03": dict(
     category="proof",
@@ -85,7 +85,7 @@ CLAIMED = {
     category="proof",
     text="Coq theorems prove that the rebinned WCS reports, for ANY inner WCS, the inner coordinates at j*f+(f-1)/2 on every axis (C09_wcs, C09_block_centre_positions, C09_block_centre), that this registration holds iff the offset is (f-1)/2 (C09_centre_iff_offset), that output pixel edges are every f-th source edge, f=1 axes are untouched and rebin-of-rebin composes (C09_edges, C09_unit_factor, C09_rebin_of_rebin), and that the arange-and-filter grid of ExtraCoords.resample with that offset is exactly the M block centres for every integer factor and axis length M*f, where the tables are sampled by linear interpolation (C09_grid, C09_extra). Tied to /repo by exact decoding of the linear probe WCS at centres and edges, table comparison (Quantity / Time / SkyCoord, plain / sliced / rebinned sources) and a direct oracle on TAN / rotated families.",
     design_ref="DESIGN.md §5.9",
-    note="Trusted: Coq kernel + VM; Model/M_Resample.v transcription; tab_eval is a dependency model of np.interp / interpn linear interpolation (validated by the same run); Time tables compared to 1e-5 s; WCS-backed ExtraCoords not generated.",
+    note="Trusted: Coq kernel + VM; Model/M_Resample.v transcription; tab_eval is a dependency model of np.interp / interpn linear interpolation (validated by the same run); Time tables compared to 1e-5 s; one coordinate spanning several axes (2-D per-pixel SkyCoord table, two-table Quantity coordinate, WCS-backed ExtraCoords with any mapping) is checked by the direct oracle only; known findings q2-grid-shapes and sky2-length1.",
     technique="Coq proof (field/lra over Q, ceiling/arange lemma) over hand-written Gallina model + vm_compute correspondence check"),
  "C08": dict(
     category="proof",
@@ -103,7 +103,7 @@ CLAIMED = {
     category="proof",
     text="Coq theorems: C13_history (after ANY sequence, of any length, of supported edits - numeric slicing, selection by distinct keys, pop / del, update with a consistent set of members, copy - the invariant holds: keys distinct, every member's aligned axes are distinct axes that exist on that member, the i-th aligned axes of all members have equal length, no aligned axes listed when the collection has none; a refused edit leaves the collection as it was), C13_edit (one edit), C13_member_slice (a numerically sliced member: the renumbered aligned axes are distinct axes of the SLICED member and the lengths along them depend only on the old aligned lengths and the items), C13_inv_reflects (the boolean invariant evaluated on every reached state decides that proposition), C13_renumber (the loop of _update_aligned_axes equals the closed form 'same physical axes lowered by the number of dropped member axes below them', for any number of aligned axes, any ascending drops, any per-member order), C13_drops_wellformed. Tied to /repo by an exact correspondence check of the whole edit state machine (slice, select, copy, pop, del, update, refused operations) on every reached state (keys, shapes, aligned axes, unchanged-after-refusal), with numpy integers as indices in every fourth case and every collection an edit was derived from re-observed after later edits, plus a direct oracle (physical-axis identity via coded data).",
     design_ref="DESIGN.md §5.13",
-    note="Trusted: Coq kernel + VM; Model/M_Collection.v transcription; M_Slicing for member shapes; harness + direct oracle. NDCubeSequence members are not generated; items with None / Ellipsis are outside the history theorem (premise no_special).",
+    note="Trusted: Coq kernel + VM; Model/M_Collection.v transcription; M_Slicing for member shapes; harness + direct oracle. NDCubeSequence members are modelled by the flag mseq (C13_slice_member: an integer on the sequence axis yields a cube, nothing 0-d is left); slices that would leave an empty sequence are unspecified and not judged; items with None / Ellipsis are outside the history theorem (premise no_special).",
     technique="Coq proof over hand-written Gallina model + vm_compute correspondence check over edit histories"),
  "C11": dict(
     category="proof",
